@@ -533,6 +533,9 @@ struct Runner {
 		if constexpr (fl == CTL_GUARD) e.pend = trOf(control.pendingTransition());
 		if constexpr (fl != CTL_CONST) e.cur = trOf(control.currentTransition());
 		Instance& m = *ptr(W.cur);
+#ifdef VF_HISTORY
+		{ const TrV cp = trOf(control.previousTransitions()), mp = trOf(m.previousTransition()); if (!(cp == mp) || cp.valid != mp.valid) e.cprevOk = 0; }
+#endif
 		{	// context identity
 			bool ok = true;
 			if constexpr (Z::CTX == 0) ok = static_cast<const void*>(&control.context()) == static_cast<const void*>(&m.context()) && static_cast<const void*>(&control._()) == static_cast<const void*>(&m.context());
@@ -935,6 +938,14 @@ struct Runner {
 			begin(inst, code, op.a & 1, 0, 0);
 			if (W.opts.loggerMode == 0) { m.attachLogger((op.a & 1) ? &logger : nullptr); slots[inst].logger = (op.a & 1) != 0; }
 #endif
+			break;
+		case OP_SETCONTEXT:
+			if constexpr (Z::CTX == 3) {
+				op.a = static_cast<uint8_t>(op.a % 3);
+				begin(inst, code, op.a, 0, 0);
+				m.setContext(&W.ctxObj[op.a]);
+				W.ctxOf[inst] = op.a;
+			} else { begin(inst, OP_OBSERVE, 0, 0, 0); code = OP_OBSERVE; }
 			break;
 		case OP_RECONSTRUCT:
 			// two windows: the tear-down (bracketed like an op) and a construction window like the initial one
